@@ -125,4 +125,28 @@ theorem walkDir_good (c : Cfg) (perms uid gid : Nat) :
           · simp at h
           · exact leaf h
 
+theorem inv_liftE (r : FS × Option Err) (h : FS.Inv r.1) : FS.Inv (liftE r).1 := h
+
+/-- every iteration of `mutatePaths`, successful or not, keeps the graph invariant -/
+theorem inv_mutateOne (c : Cfg) (fs : FS) (m : Mutation) (hi : FS.Inv fs) : FS.Inv (mutateOne c fs m).1 := by
+  by_cases hk : m.type ∈ [tDirectory, tEmptyFile, tHardlink, tSymlink, tPermissions]
+  · simp only [List.mem_cons, List.mem_nil_iff, or_false] at hk
+    have hp : ∀ fs1, FS.Inv fs1 → FS.Inv (mutatePermissions c fs1 m).1 := fun fs1 h => inv_mpd c fs1 _ _ _ _ h
+    rcases hk with hk | hk | hk | hk | hk
+    · rw [mutateOne_directory c fs m hk]; exact inv_andThen _ _ (inv_mutateDirectory c fs m hi) hp
+    · rw [mutateOne_emptyFile c fs m hk]; exact inv_andThen _ _ (inv_mutateEmptyFile c fs m hi) hp
+    · rw [mutateOne_hardlink c fs m hk]; exact inv_andThen _ _ (inv_mutateHardLink c fs m hi) hp
+    · rw [mutateOne_symlink c fs m hk]; exact inv_andThen _ _ (inv_mutateSymLink c fs m hi) hp
+    · rw [mutateOne_permissions c fs m hk]; exact hp fs hi
+  · rw [mutateOne_unknown c fs m hk]; exact hi
+
+theorem inv_mutatePaths (c : Cfg) (ms : List Mutation) : ∀ (fs : FS), FS.Inv fs → FS.Inv (mutatePaths c fs ms).1 := by
+  induction ms with
+  | nil => intro fs hi; exact hi
+  | cons m rest ih =>
+    intro fs hi
+    unfold mutatePaths at ih ⊢
+    rw [seqM_cons]
+    exact inv_andThen _ _ (inv_mutateOne c fs m hi) ih
+
 end Apko.Accounts
